@@ -6,8 +6,8 @@ from .. import spaces
 from ..refmodel import dtl
 from ..refmodel.trees import T, shape_from_json
 from ete3 import Tree
-from superrec2.compute.reconciliation import reconcile_lca
-from superrec2.model.reconciliation import ReconciliationInput
+from superrec2.compute.reconciliation import reconcile_lca, reconcile_thl
+from superrec2.model.reconciliation import ReconciliationInput, NodeEvent
 from superrec2.utils.trees import LowestCommonAncestor
 
 PROP = "C07"
@@ -61,6 +61,17 @@ def check_input(O, S, leafmap):
     want = dtl.lca_mapping(O, S, leafmap)
     if m != want:
         return ("lca_mapping", f"reconcile_lca gives {sorted(m.items(), key=str)}, model LCA mapping {sorted(want.items())}"), False
+    # the mapping is defined without reference to the unit costs: same answer whatever dup / loss are (dup != loss, loss = 0,
+    # dup = 0, finite transfer cost)
+    for costs in ((0, 3, INF, 1, 1), (0, 1, INF, 0, 1), (0, 0, INF, 2, 1), (1, 2, 1, 0, 1), (0, 5, 0, 3, 1)):
+        inp2, onode2, snode2 = A.build_input(O, S, leafmap, costs)
+        try:
+            m2 = A.mapping_of(reconcile_lca(inp2), onode2, snode2)
+        except Exception as exc:
+            return ("exception", f"reconcile_lca raised {type(exc).__name__}: {exc} at costs {A.costs_to_json(costs)}"), False
+        if m2 != want:
+            return ("lca_mapping", f"at costs {A.costs_to_json(costs)} reconcile_lca gives {sorted(m2.items(), key=str)}, model LCA "
+                    f"mapping {sorted(want.items())}"), False
     evs = dtl.events_of(O, S, leafmap, m)
     if evs is None:
         return ("invalid", f"LCA mapping invalid: {sorted(m.items())}"), False
@@ -107,6 +118,22 @@ def session_step(O, S, ot, lca, los, onode, snode, leafmap):
     wantc = sum(1 for e in evs.values() if e[0] == "D") + sum(e[1] for e in evs.values())
     if ic != wantc:
         return ("cost_mismatch", f"implementation cost {ic} of the LCA reconciliation != model cost {wantc}")
+    if len(O.leaves) <= 3 and len(S.leaves) <= 3:
+        # "equality when transfers are forbidden": the general solver on the SAME input object, first with transfers allowed,
+        # then - the cost dict edited in place - with an infinite transfer cost, must then return exactly the LCA mapping
+        try:
+            inp.costs[NodeEvent.HORIZONTAL_TRANSFER] = 1
+            list(reconcile_thl(inp, A.POLICY["ALL"]))
+            inp.costs[NodeEvent.HORIZONTAL_TRANSFER] = A.inf
+            res = [A.mapping_of(o, onode, snode) for o in reconcile_thl(inp, A.POLICY["ALL"])]
+            costs_thl = {A.impl_cost(o.cost()) for o in reconcile_thl(inp, A.POLICY["ALL"])}
+        except Exception as exc:
+            return ("exception", f"reconcile_thl raised {type(exc).__name__}: {exc}\n{traceback.format_exc(limit=5)}")
+        if costs_thl != {wantc}:
+            return ("thl_at_inf", f"general solver with hgt = inf (set in place after a run with hgt = 1) returns costs {sorted(costs_thl, key=str)}, "
+                    f"LCA reconciliation costs {wantc}")
+        if res != [want]:
+            return ("thl_at_inf", f"general solver with hgt = inf returns {len(res)} solutions {res[:2]}, expected only the LCA mapping")
     return None
 
 
